@@ -17,6 +17,7 @@
 Audio recording input and playing output module
 """
 
+import sys
 import threading
 import struct
 import array
@@ -112,20 +113,32 @@ def chunks(seq, size=None, dfmt="f", byte_order=None, padval=0.):
   """
   if size is None:
     size = chunks.size
-  chunk = array.array(dfmt, xrange(size))
+  chunk = array.array(dfmt, [0] * size)
   idx = 0
+
+  # array.array keeps the machine byte order: swap when the other one is asked
+  order = {"<": "little", ">": "big", "!": "big"}.get(byte_order, sys.byteorder)
+  swap = order != sys.byteorder
+  tobytes = getattr(array.array, "tobytes", None) or array.array.tostring # Py2
+
+  def export():
+    if not swap:
+      return tobytes(chunk)
+    swapped = array.array(dfmt, chunk)
+    swapped.byteswap()
+    return tobytes(swapped)
 
   for el in seq:
     chunk[idx] = el
     idx += 1
     if idx == size:
-      yield chunk.tostring()
+      yield export()
       idx = 0
 
   if idx != 0:
     for idx in xrange(idx, size):
       chunk[idx] = padval
-    yield chunk.tostring()
+    yield export()
 
 
 class RecStream(Stream):
